@@ -165,9 +165,11 @@ def scan_forbidden() -> list[str]:
     return hits
 
 
-def coq_build(jobs: int = 16, clean: bool = False) -> tuple[bool, str]:
-    """Regenerate Gen/, then a full .vo build of the development (incremental
-    unless clean).  Serialised with flock.  Returns (ok, log)."""
+def coq_build(jobs: int = 16, clean: bool = False, targets: list[str] | None = None) -> tuple[bool, str]:
+    """Regenerate Gen/, then a full .vo build (incremental unless clean) of the
+    whole development, or - when `targets` (development files) is given - of
+    those files and everything they depend on.  Serialised with flock.
+    Returns (ok, log)."""
     WORK.mkdir(parents=True, exist_ok=True)
     lock = open(WORK / "build.lock", "w")
     fcntl.flock(lock, fcntl.LOCK_EX)
@@ -205,7 +207,8 @@ def coq_build(jobs: int = 16, clean: bool = False) -> tuple[bool, str]:
             log += out
         if clean:
             _run("make clean", cwd=COQ)
-        rc, out = _run(f"timeout 3000 make -j{jobs} -k", cwd=COQ, timeout=3100)
+        tg = " ".join(t[:-2] + ".vo" for t in (targets or []))
+        rc, out = _run(f"timeout 3000 make -j{jobs} -k {tg}", cwd=COQ, timeout=3100)
         log += out
         return rc == 0, log
     finally:
